@@ -33,6 +33,8 @@ Definition ds_env_all := bytes "env_all".
 Definition ds_hostname := bytes "hostname".
 Definition ds_login := bytes "login".
 Definition ds_datetime := bytes "datetime".
+Definition ds_cgroup := bytes "cgroup".
+Definition ds_rpname := bytes "rpname".
 Definition f_only_uid := bytes "only_uid".
 Definition f_exclude_uid := bytes "exclude_uid".
 Definition f_exclude_spawns_of := bytes "exclude_spawns_of".
